@@ -600,7 +600,14 @@ class Array(metaclass=MetaArray):
                     + cls._data_offset
                     + get_offset(index, self._strides)
                 )
-            cls._itemtype._to_buffer(self._buffer, offset, value)
+            info = None
+            if cls._itemtype._size is None:  # cannot outgrow the item
+                info = cls._itemtype._inspect_args(value)
+                reserved = Int64._from_buffer(self._buffer, offset)
+                if info.size > reserved:
+                    raise ValueError(f"{value} does not fit in item {index}")
+                info.size = reserved
+            cls._itemtype._to_buffer(self._buffer, offset, value, info)
 
     def _update(self, value):
         if is_integer(value):
@@ -608,7 +615,19 @@ class Array(metaclass=MetaArray):
         else:
             ll = len(value)
         if len(self) == ll:
-            self.__class__._to_buffer(self._buffer, self._offset, value)
+            info = self.__class__._inspect_args(value)
+            if tuple(info.shape) != tuple(self._shape):
+                raise ValueError(
+                    f"shape {info.shape} is incompatible with {self}"
+                )
+            if info.size > self._get_size():
+                raise ValueError(f"{value} does not fit in {self}")
+            info.size = self._get_size()
+            self.__class__._to_buffer(self._buffer, self._offset, value, info)
+            if hasattr(self, "_offsets"):  # items may have moved
+                self._offsets = self.__class__._from_buffer(
+                    self._buffer, self._offset
+                )._offsets
         else:
             if is_integer(value):
                 raise ValueError(f"Cannot specify new length {ll} for {self}")
